@@ -27,6 +27,8 @@ def plan(tier, seed):
         specs.append(dict(name="ref-%d" % i, mode=mode, role="ref", input=i, seed=seed))
         specs.append(dict(name="cfgA-%d" % i, mode=mode, role="A", input=i, seed=seed, nconf=5 if q else 12))
         specs.append(dict(name="cfgB-%d" % i, mode=mode, role="B", input=i, seed=seed, nconf=4 if q else 12))
+    for p in range(2 if q else 6):
+        specs.append(dict(name="entry-%d" % p, mode="interp", role="entry", part=p, seed=seed, n=20 if q else 80))
     return specs
 
 
@@ -106,7 +108,47 @@ def run_config(case, conf, res):
     return dg.digest(run.result), perms, run
 
 
+def cb_balance(rho, rp, tp, rd, td):
+    if rp > 10 * rd:
+        return rho * 2
+    if rd > 10 * rp:
+        return rho / 2
+    return rho
+
+
+def run_entry(spec, res):
+    """The public optimiser entry point: the same problem solved again after other problems (same and different control parameters,
+    with and without a step-size callback) must give the bit-identical matrix."""
+    import hashlib
+    from fast_ticc import admm
+    from ticcmon.workloads import data as wd
+    rng = np.random.default_rng([spec["seed"], 1414, spec["part"]])
+    for i in range(spec["n"]):
+        N, W = int(rng.integers(1, 4)), int(rng.integers(1, 5))
+        n = N * W
+        kw = dict(rho=float(rng.choice([0.5, 1.0, 2.0])), rho_update=cb_balance if i % 2 else None, max_iterations=200)
+        problems = [wd.make_covariance(dict(seed=int(rng.integers(0, 2 ** 31)), n=n, kind=k, N=N, W=W, pts=n + 3)) for k in ("full", "diag", "samples")]
+        lam = float(rng.choice([0.0, 0.05, 0.5]))
+
+        def solve(S):
+            return hashlib.sha256(np.asarray(admm.admm_optimize_theta(S.copy(), lam, W, N, **kw).theta, dtype=np.float64).tobytes()).hexdigest()[:16]
+        first = solve(problems[0])
+        solve(problems[1])
+        solve(problems[2])
+        again = solve(problems[0])
+        res.evaluations += 4
+        res.count("entry_point_repeat_comparisons")
+        if first != again:
+            res.violation("optimiser entry point: the same problem (N=%d W=%d rho=%g callback=%s) gives %s, and %s when solved again after two "
+                          "other problems with the same control parameters" % (N, W, kw["rho"], bool(kw["rho_update"]), first, again),
+                          dict(what="entry", N=N, W=W))
+        res.nontriv("entry-%d-%d" % (spec["part"], i))
+
+
 def run_shard(spec, res):
+    if spec.get("role") == "entry":
+        run_entry(spec, res)
+        return
     seed, i = spec["seed"], spec["input"]
     case = make_input(seed, i)
     K = case["K"]
@@ -161,6 +203,9 @@ def instrument_forks():
 
 def replay(case, res):
     """case: dict(case=..., confs=[conf, conf]) - re-runs both configurations and compares."""
+    if case.get("what") == "entry":
+        res.inconclusive.append("re-run ./check C14 (entry-point sequences are generated per shard)")
+        return
     d0, _, _ = run_config(case["case"], case["confs"][0], res)
     d1, _, _ = run_config(case["case"], case["confs"][1], res)
     res.evaluations += 2
@@ -198,6 +243,8 @@ def finalize(merged, tier):
         out["inconclusive"].append("fewer than 3 compared configurations drew points for a repopulation (global-generator dependence unobserved)")
     if merged["counters"].get("preceding_calls_same_NW_other_split", 0) < 3:
         out["inconclusive"].append("fewer than 3 configurations were preceded by a call with the same N*W but another (N,W) split")
+    if merged["counters"].get("entry_point_repeat_comparisons", 0) < (30 if tier == "quick" else 300):
+        out["inconclusive"].append("entry-point history comparisons: %d" % merged["counters"].get("entry_point_repeat_comparisons", 0))
     if compared < (40 if tier == "quick" else 400):
         out["inconclusive"].append("only %d digests compared" % compared)
     return out
